@@ -3,6 +3,7 @@ package server
 import (
 	"bytes"
 	"encoding/json"
+	"errors"
 	"fmt"
 	"html"
 	"io"
@@ -128,6 +129,12 @@ func parseRequestURL(url string, validateAC bool) (kind cache.EntryKind, hash st
 func (h *httpCache) handleContainsValidAC(w http.ResponseWriter, r *http.Request, hash string) {
 	_, data, err := h.cache.GetValidatedActionResult(r.Context(), hash)
 	if err != nil {
+		var cerr *cache.Error
+		if errors.As(err, &cerr) && cerr.Code == http.StatusInsufficientStorage {
+			http.Error(w, cerr.Error(), cerr.Code)
+			h.logResponse(cerr.Code, r)
+			return
+		}
 		http.Error(w, "Not found", http.StatusNotFound)
 		h.logResponse(http.StatusNotFound, r)
 		return
@@ -147,6 +154,12 @@ func (h *httpCache) handleContainsValidAC(w http.ResponseWriter, r *http.Request
 func (h *httpCache) handleGetValidAC(w http.ResponseWriter, r *http.Request, hash string) {
 	_, data, err := h.cache.GetValidatedActionResult(r.Context(), hash)
 	if err != nil {
+		var cerr *cache.Error
+		if errors.As(err, &cerr) && cerr.Code == http.StatusInsufficientStorage {
+			http.Error(w, cerr.Error(), cerr.Code)
+			h.logResponse(cerr.Code, r)
+			return
+		}
 		http.Error(w, "Not found", http.StatusNotFound)
 		h.logResponse(http.StatusNotFound, r)
 		return
